@@ -360,6 +360,25 @@ def run(ctx):
                     ctx.violation("accepted-set-depends-on-path", "randomize_prior_order + n_prior_samples with equal seeds: the object "
                                   "path accepts rows %s..., the file path %s..." % (sub["obj"][0][:6], sub["file"][0][:6]),
                                   dict(desc, seed=seed))
+            # a leading subset (n_prior_samples < library, evaluation in file order): the same rows and the same likelihood
+            # vector for every batch count, including those that do not divide the request
+            if N > 4:
+                M_ = int(rng.integers(2, N))
+                lead = {}
+                for nb_ in [None, 1, 3, 7, max(1, M_ - 1)]:
+                    kind = str(rng.choice(["obj", "file"]))
+                    jj = TheJoker(pb.prior, pool=get_pool(0), rng=np.random.default_rng(seed), tempfile_path=ctx.tmpdir)
+                    o_, l_ = jj.rejection_sample(pb.data, pb.lib if kind == "obj" else path, n_prior_samples=M_, n_batches=nb_,
+                                                 return_all_logprobs=True)
+                    lead[(nb_, kind)] = (np.searchsorted(pb.tagP, np.asarray(o_["P"].to_value("d"))).tolist(), bits(np.asarray(l_)),
+                                         len(l_))
+                ctx.evaluations += 1
+                ctx.distinct.add(repr(("leading-subset", "n_batches")))
+                lv = list(lead.values())
+                if any(v != lv[0] for v in lv[1:]) or lv[0][2] != M_ or lv[0][1] != bits(base[:M_]):
+                    ctx.violation("accepted-set-depends-on-path", "n_prior_samples=%d of %d: accepted rows / likelihood vector differ "
+                                  "between batch counts or are not those of the first %d rows: %s"
+                                  % (M_, N, M_, {str(k): (v[0][:5], v[2]) for k, v in lead.items()}), dict(desc, seed=seed))
             vals = list(sets.values())
             if any(v != vals[0] for v in vals[1:]):
                 ctx.violation("accepted-set-depends-on-path", "equal seeds but different accepted rows across paths: %s"
